@@ -328,5 +328,10 @@ func (eng *RedisEmu) SetHook(hook DispatchHook) {
 	defer simAfterUnlock(&eng.mu, "eng.mu")
 	defer eng.mu.Unlock()
 
+	if eng.dss != nil {
+		// the dispatcher of a running emulator reads the hook under this lock
+		eng.dss.mu.Lock()
+		defer eng.dss.mu.Unlock()
+	}
 	eng.hook = hook
 }
